@@ -525,7 +525,13 @@ pub async fn check_message(s: &mut Session, bytes: &[u8], prefer_text: bool, obs
 			}
 		}
 	}
-	let skip_equivalence = matches!(&class, Class::Call { method, .. } if matches!(expected_payload(method, None), Payload::Skip | Payload::Bound))
+	// (whatever the class: a message that names a subscribe / unsubscribe method is served by the WebSocket transport only)
+	let names_subscription = parse_strict(String::from_utf8_lossy(bytes).as_bytes()).ok().and_then(|j| match j.get("method") {
+		Some(J::Str(m)) => Some(matches!(expected_payload(m, None), Payload::Bound)),
+		_ => None,
+	}) == Some(true);
+	let skip_equivalence = names_subscription
+		|| matches!(&class, Class::Call { method, .. } if matches!(expected_payload(method, None), Payload::Skip | Payload::Bound))
 		|| (is_batch && (find(bytes, b"sub_").is_some() || find(bytes, b"gated_").is_some()));
 	if !skip_equivalence {
 		obs.check(ws_reply == http_reply, "c01/http-and-ws-disagree", || format!("{} => ws {ws_reply:?} http {http_reply:?}", shown()));
